@@ -118,6 +118,7 @@ def check(P: Project, R: Report) -> None:
         # classify the serialised text
         d = an.defs.get(inner)
         kind = None
+        known_bad = False
         detail = an.origin(inner)[:110]
         if d is not None and isinstance(d[1], ast.Call):
             c = d[1]
@@ -130,7 +131,7 @@ def check(P: Project, R: Report) -> None:
                 for k, vv in st.env:
                     if k == callee:
                         t = vv
-                callee_def = t
+                callee_def = an.origin(t) if t else None  # (`dump_json = getattr(message, "model_dump_json", None)` under whatever local name)
             if cn == "json.dumps" and indent is None:
                 arg0 = c.args[0] if c.args else None
                 if isinstance(arg0, ast.Call) and call_name(arg0) == "json.loads":
@@ -149,6 +150,7 @@ def check(P: Project, R: Report) -> None:
                 R.ob("R3", "model_dump_json path passes exclude_none=True", _true(kwarg(c, "exclude_none")), f"{rel}:{c.lineno}", ast.unparse(c)[:60])
             elif indent is not None:
                 kind = None
+                known_bad = True
                 detail = f"serialiser called with indent: `{ast.unparse(c)[:70]}`"
         elif inner == msg:
             # raw pass-through of the caller's string: only on a path that excluded CR and LF
@@ -182,7 +184,14 @@ def check(P: Project, R: Report) -> None:
             if _excludes_breaks():
                 kind = "str without CR/LF"
             else:
+                known_bad = True
                 detail = f"caller-supplied str reaches the frame with literals {sorted(l[:40] for l in lits)}"
+        if kind is None and not known_bad and re.search(r"(?<![\w.])" + re.escape(msg) + r"(?![\w])", detail) and "dumps(" not in detail and "model_dump" not in detail:
+            known_bad = True  # text made from the caller's own string by something other than a serialiser (`"".join(message.splitlines())` …)
+            detail = f"caller-supplied str reaches the frame through `{detail[:70]}`"
+        if kind is None and not known_bad:
+            # where the text comes from is not one of the shapes this rule knows to be safe or unsafe: undecided, not a finding
+            raise AnalysisError(f"{rel}:{loop.lineno}: the text framed for stdin is produced by `{detail[:90]}`, a shape this rule cannot classify (known: json.dumps(obj), model_dump_json(), a str with CR/LF excluded or re-encoded)")
         shapes.add(kind)
         R.ob("R2", f"serialised text is line-safe ({kind or 'UNSAFE'})", kind is not None, f"{rel}:{loop.lineno}", detail, sample=f"R2 {wr.qual}: s := {detail[:90]} [{kind}]")
     R.ob("R2", "all three accepted shapes are serialised", {"dumps(obj)", "model_dump_json"} <= shapes and any(s and s.startswith(("str", "dumps(obj)")) for s in shapes), rel, f"shapes {sorted(map(str, shapes))}")
